@@ -61,8 +61,8 @@ class C07(Prop):
             "decided twice: against the Lean mirror, and by a Python oracle written from the statement (labels, slices, "
             "fill, promotion, searchsorted neighbour). Non-trivial = request differs from the axis; distinct = canonical JSON")
     assumptions = ["labels unique, NaN-free, one kind per axis; requested labels of the axis' kind family",
-                   "open defects left out of the stream: float32 axis asked for non-float32 labels, str ('U') data with the str fill, "
-                   "narrow data dtype with the fill 2**40+1 (all: value cut to the narrower dtype of the same kind)",
+                   "left out of the stream: a Python-number fill (2**40+1) that the data's narrow dtype of the same kind cannot hold "
+                   "(rounded / refused as in plain NumPy assignment - judged not to be the library's business, DESIGN 0.9)",
                    "raise_error=True together with method=: an error is accepted, the statement does not say when it is due"]
 
     def mirrors(self):
@@ -172,6 +172,18 @@ class C07(Prop):
         n = 1200 if tier == "quick" else 30000
         for _ in range(n):
             yield self.gen_case(rng, tier) if rng.random() < 0.85 else self.gen_like(rng)
+        # typed fill values meeting data they do not fit: integer data beyond single precision with a float32 fill and
+        # some labels kept, some missing (the kept cells must not change: the promotion is to double precision)
+        k = 0
+        while k < n // 40:
+            c = self.gen_case(rng, tier)
+            if c["op"] != "reindex" or c["method"] is not None or c["raise"] or c.get("_how") not in ("mixed", "superset"):
+                continue
+            c["array"]["vkind"] = "i"
+            c["array"].pop("vdtype", None)
+            c["fill"] = "np_f32"
+            yield sanitize(c)
+            k += 1
         if tier == "thorough":
             for c in self.exhaustive():
                 yield c
@@ -313,6 +325,10 @@ def sanitize(c):
     # (int32 data: OverflowError) instead of widening the data.  Narrow data dtypes meet small fill values only.
     if c["fill"] == "big" and arr.get("vdtype"):
         del arr["vdtype"]
+    if c["fill"] == "np_f32" and arr.get("vkind") == "i" and not arr.get("vdtype"):
+        # integer data that single precision cannot hold, promoted because of a float32-typed fill: the cells at existing
+        # labels keep their values (the promotion is to double precision)
+        arr["vbase"] = 2 ** 24
     return c
 
 
